@@ -224,7 +224,7 @@ class Gen01(mut.Gen):
         return True
 
 
-def gen_history(rng, n_ops=30, *, malformed=False, univ=None, ntrees=None, cls=Gen01):
+def gen_history(rng, n_ops=30, *, malformed=False, univ=None, ntrees=None, cls=Gen01, init=(3, 8)):
     """As mut.gen_random, with the special steps of `cls` mixed in."""
     g = cls(rng, univ=univ, malformed=malformed)
     ntrees = ntrees or rng.choice([1, 1, 2, 3])
@@ -234,7 +234,7 @@ def gen_history(rng, n_ops=30, *, malformed=False, univ=None, ntrees=None, cls=G
         if malformed and rng.random() < 0.3:
             calc = {"fn": rng.choice(["hash", "name"]), "raise": [rng.randrange(len(g.univ))]}
         g.do(["new", typed, calc])
-    for _ in range(rng.randint(3, 8)):
+    for _ in range(rng.randint(*init)):
         ti = g.pick_tree()
         typed = isinstance(g.w.trees[ti], TypedTree)
         g.do(["add", ti, g.any_node(ti), rng.randrange(len(g.univ)), rng.choice(mut.DIDS), rng.choice(mut.KINDS) if typed else None, None])
